@@ -123,6 +123,31 @@ func (m *Mini) RunFunc(fd *ast.FuncDecl, bind map[types.Object]MV) (res []MV, pa
 	return nil, false, nil // fell off the end (no results)
 }
 
+// RunBlock folds a statement list under the given bindings and returns the control outcome
+// plus a lookup for the final values of the bound (and newly defined outer) variables.
+func (m *Mini) RunBlock(list []ast.Stmt, bind map[types.Object]MV) (ret []MV, returned, panicked bool, get func(types.Object) (MV, bool), err error) {
+	defer func() {
+		if r := recover(); r != nil {
+			if me, ok := r.(miniErr); ok {
+				err = me
+				return
+			}
+			panic(r)
+		}
+	}()
+	env := &menv{vars: map[types.Object]MV{}}
+	for o, v := range bind {
+		env.vars[o] = v
+	}
+	ctl, vals := ctlNormal, []MV(nil)
+	for _, s := range list {
+		if ctl, vals = m.stmt(s, env); ctl != ctlNormal {
+			break
+		}
+	}
+	return vals, ctl == ctlReturn, ctl == ctlPanic, env.get, nil
+}
+
 func (m *Mini) zero(t types.Type) MV {
 	switch u := t.Underlying().(type) {
 	case *types.Basic:
@@ -398,7 +423,7 @@ func (m *Mini) assign(s *ast.AssignStmt, env *menv) {
 		}
 	} else {
 		for _, r := range s.Rhs {
-			vals = append(vals, m.expr(r, env))
+			vals = append(vals, m.tryExpr(r, env))
 		}
 	}
 	for i, l := range s.Lhs {
@@ -445,6 +470,28 @@ func (m *Mini) equal(at ast.Node, a, b MV) bool {
 		}
 		if sa == sb {
 			return true
+		}
+		// two tracked struct values: equal iff same dynamic type and pairwise identical field symbols
+		if sa.Dyn != nil && sb.Dyn != nil {
+			if !types.Identical(sa.Dyn, sb.Dyn) {
+				return false
+			}
+			if sa.Fields != nil && sb.Fields != nil && len(sa.Fields) == len(sb.Fields) {
+				all := true
+				for k, v := range sa.Fields {
+					w, ok := sb.Fields[k]
+					if !ok {
+						all = false
+						break
+					}
+					vs, ok1 := v.(*MSym)
+					ws, ok2 := w.(*MSym)
+					if !(ok1 && ok2 && vs == ws) {
+						all = false
+					}
+				}
+				return all
+			}
 		}
 	}
 	m.fail(at, "comparison outside the abstraction")
@@ -529,6 +576,11 @@ func (m *Mini) expr(x ast.Expr, env *menv) MV {
 		if _, isPkg := m.Info.Uses[identOf(x.X)].(*types.PkgName); isPkg {
 			if c, ok := m.Info.Uses[x.Sel].(*types.Const); ok {
 				return c.Val()
+			}
+			if m.Sel != nil {
+				if v, ok := m.Sel(m, x, nil); ok {
+					return v
+				}
 			}
 			m.fail(x, "package-level %s is outside the abstraction", x.Sel.Name)
 		}
